@@ -135,5 +135,5 @@ def run_case(case, ctx):
     for a, c in AFF[1:]:
         D2 = [[a * b + c, a * d + c] for b, d in D]
         _, cp2, fc2 = build(ctx, [np.array(D2, dtype=float)], 0)
-        sc = max(1.0, abs(c) + a * 10)
+        sc = abs(c) + a * 10  # tolerance relative to the diagram's own coordinate scale
         compare(ctx, D2, cp2, fc2, 1e-9 * sc, "affine a=%r c=%r" % (a, c), "landscape-value-aff")
